@@ -205,7 +205,7 @@ def generate(rng, tier):
     cases = []
     n = 400 if tier == "quick" else 4000
     for i in range(n):
-        p = buildprog.gen_prog(rng, cfg=CFGS[i % 4], small=(i % 3 == 0))
+        p = buildprog.gen_prog(rng, cfg=CFGS[i % 4], small=(i % 3 == 0), nested_focus=(i % 10 == 7))
         tail = ["save"]
         if i % 4 == 1:
             tail = ["save", "save"]                        # the same object saved again
